@@ -218,7 +218,9 @@ def gen_cases(rng, tier):
                          "choices2": [rng.randint(0, 4) for _ in range(4 * n)],
                          "swap": rng.sample(range(n), rng.choice([0, 0, 1, 1, 2])),
                          "poke": rng.sample(range(n), rng.choice([0, 1, 1, 2])),
-                         "pull": rng.sample(range(n), 1) if rng.random() < 0.25 else []}}
+                         "pull": rng.sample(range(n), 1) if rng.random() < 0.25 else [],
+                         # a child whose executor takes no more jobs in run two (shut down between the runs)
+                         "refuse2": rng.sample(range(n), 1) if rng.random() < 0.25 else []}}
     # fine interleaving: callbacks on their own thread, stepped in two halves
     for _ in range(60 if tier == "quick" else 600):
         n = rng.randint(2, 5 if tier == "quick" else 8)
@@ -292,6 +294,10 @@ def gen_host_case(rng, tier):
 
 
 def corpus():
+    # re-run in which the executor of child 0 refuses the job: 2 takes data from 0 and 1 and must not execute
+    yield {"n": 3, "order": [0, 1, 2], "slots": {"0": [[], [], []], "1": [[], [], []], "2": [[0], [1], []]},
+           "exec": [0], "fails": [2], "mode": "ctl", "choices": [],
+           "rerun": {"exec2": [], "choices2": [], "refuse2": [0]}}
     # macro host, diamond 0 -> 1,2 -> 3: run (3 fails), child 1 pulled, re-run with 1 and 2 out and 2 completing first
     yield {"n": 4, "order": [0, 1, 2, 3], "slots": {"0": [[], [], []], "1": [[0], [], []], "2": [[0], [], []],
                                                      "3": [[1], [2], []]},
@@ -412,12 +418,25 @@ def _run_once(case, choices):
             except BaseException:  # noqa: BLE001  (not ready, ...: nothing to observe here)
                 pass
         nodes.CALL_LOG.clear()
-        res2, seen2 = _one_run(case2, wf, ns, list(rr["choices2"]), rr["exec2"], "ctl")
+        res2, seen2 = _one_run({**case2, "refuse": rr.get("refuse2", [])}, wf, ns, list(rr["choices2"]), rr["exec2"], "ctl")
         res2["epoch"] = 1
         res2["case2"] = case2
         res["run2"] = res2
         seen = seen + seen2
     return res, seen
+
+
+import concurrent.futures as _cf
+
+
+class _Refusing(_cf.Executor):
+    """an executor that refuses every submission, as a shut-down pool does"""
+
+    def submit(self, *a, **k):
+        raise RuntimeError("cannot schedule new futures after shutdown")
+
+    def shutdown(self, *a, **k):
+        pass
 
 
 def _roundtrip(case, wf, ns):
@@ -527,6 +546,8 @@ def _one_run(case, wf, ns, choices, on_exec, mode):
     exe = CtlExecutor(sched, mode)
     for i in ns:
         ns[i].executor = exe if i in on_exec else None
+    for i in case.get("refuse", []):
+        ns[i].executor = _Refusing()  # an executor that takes no more jobs (shut down, broken): `submit` raises
     for i in case.get("inner_exec", []):
         if i in case.get("macro", []) and "inner" in _kids(ns[i]):
             ns[i].children["inner"].executor = exe  # the function node INSIDE the macro is what goes to the executor
@@ -796,7 +817,7 @@ def _model_input_one(case, r):
         return lines
     lines.append("sched " + " ".join(r["trace"]))
     lines.append("run")
-    if r.get("run2"):
+    if r.get("run2") and not (case.get("rerun") or {}).get("refuse2"):
         r2 = r["run2"]
         c2 = r2.get("case2", case)
         if c2.get("host") == "macro":
@@ -834,7 +855,7 @@ def diff(case, impl, model):
         if d is not None:
             d["trace"] = r["trace"]
             return d
-        if r.get("run2"):
+        if r.get("run2") and not (case.get("rerun") or {}).get("refuse2"):
             mine2 = ["RERUN"] + [re.sub(r"@\d+", "", l) for l in obs_lines(case, r["run2"])]
             d = _diff_one(case, mine2, ch)
             if d is not None:
@@ -928,6 +949,42 @@ def check_run(case, r):
     return fails
 
 
+def check_refused(case, r, refused):
+    """run two of a re-run case in which some children's executors refuse the submission: such a child has not run,
+    so nothing that takes data from it (directly or not) may execute — the statement's 'never before all nodes it takes
+    data from have finished'; everything else executes exactly once, in order, with the composition's values; the run ends
+    with the failure reported and nothing left running"""
+    fails = []
+    n = case["n"]
+    ref = reference(case, r.get("epoch", 0))
+    sig = lambda clause: {"clause": clause, "exec": True, "faults": True, "rerun": True, "refused": True}  # noqa: E731
+    down = set(refused)
+    changed = True
+    while changed:
+        changed = False
+        for i in range(n):
+            if i not in down and any(j in down for ups in case["slots"][str(i)] for j in ups):
+                down.add(i)
+                changed = True
+    if r["outcome"] != "raised:FailedChildError":
+        fails.append({"clause": "refused-submission-not-reported", "detail": r["outcome"], "signature": sig("outcome")})
+    for i in range(n):
+        c = r["calls"].count(i)
+        if i in down and c != 0:
+            fails.append({"clause": "started-before-upstream-finished",
+                          "detail": f"node {i} was called although it depends on a child whose executor refused the job "
+                                    f"(refused {sorted(refused)}); calls={r['calls']}", "signature": sig("order")})
+        if i not in down and c != 1:
+            fails.append({"clause": "not-exactly-once", "detail": f"node {i} called {c} times; calls={r['calls']}",
+                          "signature": sig("once")})
+        if i not in down and r["outs"][i] != ref[i]:
+            fails.append({"clause": "output-differs-from-plain-composition",
+                          "detail": f"node {i}: {r['outs'][i]} vs {ref[i]}", "signature": sig("value")})
+    if r["wf_running"] or any(run for run, _f in r["flags"].values()) or r["late_jobs"]:
+        fails.append({"clause": "something-left-running", "detail": f"flags={r['flags']}", "signature": sig("running")})
+    return fails
+
+
 def oracle(case, impl):
     for r in impl["runs"]:
         if case.get("rerun"):
@@ -935,7 +992,10 @@ def oracle(case, impl):
             if "run2" not in r:
                 return [{"clause": "rerun-not-possible", "detail": f"after run one: {r['flags']} late={r['late_jobs']}",
                          "signature": {"clause": "rerun-not-possible"}}]
-            f = check_run(r["run2"].get("case2", case), r["run2"])
+            if case["rerun"].get("refuse2"):
+                f = check_refused(r["run2"].get("case2", case), r["run2"], case["rerun"]["refuse2"])
+            else:
+                f = check_run(r["run2"].get("case2", case), r["run2"])
         else:
             f = check_run(case, r)
         if f:
